@@ -10,12 +10,15 @@
           | ( disk res|pp garbage|truncate|empty|delete tu )
           | ( disk res flip tu off )     bytes changed in place inside a member's data: member off mod 3 (obj, stdout,
                                          stderr), position (off / 3) mod its stored size
+          | ( restart_distfail )         server restart whose dist client cannot be created: get_client() fails for
+                                         every executed request until the next restart
           | ( restart_broken )           server restart (rw) while the cache directory cannot be opened (a regular
                                          file in its place): every storage call of every request fails
           | ( heal )                     the directory is usable again (same server: lazily opened stores must retry)
           | ( restart rw|ro )
           | ( zero )
      every fault position also takes `panic` (the storage call panics)
+     class  = msvc_nc (compiled with MSVC -Zi -Fd<existing pdb>: parsed as cacheable, Cacheable::No at compile time)
      class  = compile | unsupported | vanished | notcompile | cannotcache | cannotcache2
      cc     = default | recache | nocache
    result = ( obs ... ), one per step:
@@ -31,7 +34,7 @@
 From Coq Require Import List NArith Bool.
 From Coq Require String.
 Import String.StringSyntax.
-From Sccache Require Import Base.Sx Model.Stats Model.ReqSM.
+From Sccache Require Import Base.Sx Model.Stats Model.ReqSM Model.ReqSMExt.
 Import ListNotations.
 Local Open Scope N_scope.
 Local Open Scope string_scope.
@@ -80,6 +83,17 @@ Definition mk_oracle (ppmode : bool) (t : N) (x : sx) : oracle :=
          o_c_stdout := []; o_c_stderr := []; o_c_outputs := []; o_c_writes := true; o_cacheable := true;
          o_pp_panics := false; o_c_panics := false |}
   end.
+
+(* the same unit compiled by the fake MSVC with -Zi -Fd<a program database that already exists>: its own keys and
+   per-language-and-compiler entry ("c [msvc]"), and generate_compile_commands answers Cacheable::No *)
+Definition as_msvc_nc (t : N) (o : oracle) : oracle :=
+  {| o_lang := {| l_lang := 0; l_adv := 4 |};
+     o_pp_key := match o_pp_key o with Some _ => Some [t; 9] | None => None end;
+     o_manifest := o_manifest o; o_upd := o_upd o;
+     o_pp_status := o_pp_status o; o_pp_stderr := o_pp_stderr o; o_manifest_ok := o_manifest_ok o;
+     o_key := [t; 9]; o_c_status := o_c_status o; o_c_stdout := o_c_stdout o; o_c_stderr := o_c_stderr o;
+     o_c_outputs := o_c_outputs o; o_c_writes := o_c_writes o; o_cacheable := false;
+     o_pp_panics := o_pp_panics o; o_c_panics := o_c_panics o |}.
 
 (* with the output directory missing the fake compiler cannot write its object file: exit 1, "nodir" *)
 Definition adjust (outdir_ok : bool) (o : oracle) : oracle :=
@@ -133,7 +147,7 @@ Definition broken_over (ro : bool) (f : faults) : faults :=
 Definition dec_class (x : sx) : req_class :=
   if is_sym "unsupported" x then QUnsupported else if is_sym "vanished" x then QUnsupported
   else if is_sym "notcompile" x then QNotCompile else if is_sym "cannotcache" x then QCannotCache 0
-  else if is_sym "cannotcache2" x then QCannotCache 1 else QCompile.
+  else if is_sym "cannotcache2" x then QCannotCache 1 else QCompile.       (* compile, msvc_nc *)
 
 Definition dec_cc (x : sx) : cache_control :=
   if is_sym "recache" x then CCForceRecache else if is_sym "nocache" x then CCForceNoCache else CCDefault.
@@ -188,7 +202,8 @@ Definition enc_result (r : response) : sx :=
    directory was unusable: `LruDiskCache::new_read_only` never touches the directory and succeeds with an empty
    index, which DiskCache keeps until the next restart — every lookup misses even after the directory is back
    (builds stay correct; a writable store reports the error instead and is opened again on the next use). *)
-Record mstate := { m_cache : cstate; m_stats : stats; m_broken : bool; m_dead : bool }.
+(* [m_distfail]: the server's dist client cannot be created (every attempt fails again) until the next restart. *)
+Record mstate := { m_cache : cstate; m_stats : stats; m_broken : bool; m_dead : bool; m_distfail : bool }.
 
 Definition enc_disk_m (m : mstate) : sx :=
   if m_broken m then SL [SN 0; SN 0; SN 0; SN 0; SN 0] else enc_disk (m_cache m).
@@ -199,12 +214,16 @@ Definition apply_actions (acts : list action) (s : stats) : stats :=
 (* one request: new cache state, response, its critical sections, its translation unit, and whether it reaches
    its cache lookup (`Storage::get`: executed, CacheControl::Default, hash key obtained) — only then can the harness
    hold it in flight *)
-Definition run_req (ppmode : bool) (orcs : list sx) (faults_on broken : bool) (x : sx) (st : cstate)
+Definition run_req_d (distfail : bool) (ppmode : bool) (orcs : list sx) (faults_on broken : bool) (x : sx) (st : cstate)
   : cstate * response * list action * N * bool :=
   match x with
   | SL [_; t; cl; cc; ok; fs] =>
       let tu := get_N t in
-      let o := adjust (get_bool ok) (mk_oracle ppmode tu (nth (N.to_nat tu) orcs (SL []))) in
+      let o0 := mk_oracle ppmode tu (nth (N.to_nat tu) orcs (SL [])) in
+      let o := adjust (get_bool ok) (if is_sym "msvc_nc" cl then as_msvc_nc tu o0 else o0) in
+      if distfail then
+        let '(st', r, acts) := request_dist_error (dec_class cl) o st in (st', r, acts, tu, false)
+      else
       let f0 := if faults_on then dec_faults (get_bool ok) fs else dec_faults (get_bool ok) (SL []) in
       let f := if broken then broken_over (cs_ro st) f0 else f0 in
       let '(st', r, acts) := request f (dec_class cl) (dec_cc cc) o st in
@@ -215,6 +234,8 @@ Definition run_req (ppmode : bool) (orcs : list sx) (faults_on broken : bool) (x
       (st', r, acts, tu, reached)
   | _ => (st, not_executed CFatal, [], 0, false)
   end.
+
+Definition run_req := run_req_d false.
 
 Fixpoint add_at (i : nat) (v : N) (l : list N) : list N :=
   match l, i with
@@ -229,7 +250,7 @@ Fixpoint run_par (ppmode : bool) (orcs : list sx) (xs : list sx) (m : mstate) (r
   | [] => (m, rev res, pp, cc)
   | x :: r =>
       let '(st', rsp, acts, tu, _) := run_req ppmode orcs false (m_broken m || m_dead m) x (m_cache m) in
-      run_par ppmode orcs r {| m_cache := st'; m_stats := apply_actions acts (m_stats m); m_broken := m_broken m; m_dead := m_dead m |}
+      run_par ppmode orcs r {| m_cache := st'; m_stats := apply_actions acts (m_stats m); m_broken := m_broken m; m_dead := m_dead m; m_distfail := m_distfail m |}
               (enc_result rsp :: res)
               (add_at (N.to_nat tu) (r_pp_runs rsp) pp) (add_at (N.to_nat tu) (r_cc_runs rsp) cc)
   end.
@@ -239,8 +260,9 @@ Definition run_one (ppmode : bool) (orcs : list sx) (m : mstate) (x : sx) : msta
   match x with
   | SL (tag :: args) =>
       if is_sym "req" tag then
-        let '(st', rsp, acts, _, _) := run_req ppmode orcs true (b || m_dead m) x (m_cache m) in
-        let m' := {| m_cache := st'; m_stats := apply_actions acts (m_stats m); m_broken := b; m_dead := m_dead m |} in
+        let '(st', rsp, acts, _, _) := run_req_d (m_distfail m) ppmode orcs true (b || m_dead m) x (m_cache m) in
+        let m' := {| m_cache := st'; m_stats := apply_actions acts (m_stats m); m_broken := b; m_dead := m_dead m;
+                     m_distfail := m_distfail m |} in
         (m', SL [sym "req"; enc_result rsp; SN (r_pp_runs rsp); SN (r_cc_runs rsp);
                  enc_disk_m m'; enc_stats (m_stats m')])
       else if is_sym "midzero" tag then
@@ -251,7 +273,7 @@ Definition run_one (ppmode : bool) (orcs : list sx) (m : mstate) (x : sx) : msta
         | [rq] =>
             let '(st', rsp, acts, _, reached) := run_req ppmode orcs true (b || m_dead m) rq (m_cache m) in
             let s' := if reached then apply_actions (skipn 2 acts) zero_stats else zero_stats in
-            let m' := {| m_cache := st'; m_stats := s'; m_broken := b; m_dead := m_dead m |} in
+            let m' := {| m_cache := st'; m_stats := s'; m_broken := b; m_dead := m_dead m; m_distfail := m_distfail m |} in
             (m', SL [sym "midzero"; enc_result rsp; SN (r_pp_runs rsp); SN (r_cc_runs rsp);
                      enc_disk_m m'; enc_stats (m_stats m')])
         | _ => (m, err "bad midzero step")
@@ -273,7 +295,7 @@ Definition run_one (ppmode : bool) (orcs : list sx) (m : mstate) (x : sx) : msta
                             | Some pk => damage_pp d pk (m_cache m)
                             | None => m_cache m
                             end in
-            let m' := {| m_cache := st'; m_stats := m_stats m; m_broken := b; m_dead := m_dead m |} in
+            let m' := {| m_cache := st'; m_stats := m_stats m; m_broken := b; m_dead := m_dead m; m_distfail := m_distfail m |} in
             (m', SL [sym "disk"; enc_disk_m m'])
         | _ => (m, err "bad disk step")
         end
@@ -282,18 +304,22 @@ Definition run_one (ppmode : bool) (orcs : list sx) (m : mstate) (x : sx) : msta
         | [mode] =>
             let st' := restart (is_sym "ro" mode) (m_cache m) in
             (* a new server process: fresh statistics *)
-            let m' := {| m_cache := st'; m_stats := zero_stats; m_broken := b; m_dead := b && is_sym "ro" mode |} in
+            let m' := {| m_cache := st'; m_stats := zero_stats; m_broken := b; m_dead := b && is_sym "ro" mode; m_distfail := false |} in
             (m', SL [sym "restart"; enc_disk_m m'; enc_stats zero_stats])
         | _ => (m, err "bad restart step")
         end
+      else if is_sym "restart_distfail" tag then
+        let m' := {| m_cache := restart false (m_cache m); m_stats := zero_stats; m_broken := b; m_dead := false;
+                     m_distfail := true |} in
+        (m', SL [sym "restart_distfail"; enc_disk_m m'; enc_stats zero_stats])
       else if is_sym "restart_broken" tag then
-        let m' := {| m_cache := restart false (m_cache m); m_stats := zero_stats; m_broken := true; m_dead := false |} in
+        let m' := {| m_cache := restart false (m_cache m); m_stats := zero_stats; m_broken := true; m_dead := false; m_distfail := false |} in
         (m', SL [sym "restart_broken"; enc_disk_m m'; enc_stats zero_stats])
       else if is_sym "heal" tag then
-        let m' := {| m_cache := m_cache m; m_stats := m_stats m; m_broken := false; m_dead := m_dead m |} in
+        let m' := {| m_cache := m_cache m; m_stats := m_stats m; m_broken := false; m_dead := m_dead m; m_distfail := m_distfail m |} in
         (m', SL [sym "heal"; enc_disk_m m'])
       else if is_sym "zero" tag then
-        ({| m_cache := m_cache m; m_stats := zero_stats; m_broken := b; m_dead := m_dead m |}, SL [sym "zero"; enc_stats zero_stats])
+        ({| m_cache := m_cache m; m_stats := zero_stats; m_broken := b; m_dead := m_dead m; m_distfail := m_distfail m |}, SL [sym "zero"; enc_stats zero_stats])
       else (m, err "bad step")
   | _ => (m, err "bad step")
   end.
@@ -307,7 +333,7 @@ Fixpoint run_all (ppmode : bool) (orcs : list sx) (m : mstate) (steps : list sx)
 Definition run_reqsm (x : sx) : sx :=
   match x with
   | SL [pm; SL orcs; SL steps] =>
-      SL (run_all (get_bool pm) orcs {| m_cache := empty_cache; m_stats := zero_stats; m_broken := false; m_dead := false |} steps)
+      SL (run_all (get_bool pm) orcs {| m_cache := empty_cache; m_stats := zero_stats; m_broken := false; m_dead := false; m_distfail := false |} steps)
   | _ => err "bad case"
   end.
 
